@@ -660,6 +660,10 @@ def dump_one(f: TextIO, data: IOData):
     if data.atcoords is not None:
         _dump_real_arrays("Current cartesian coordinates", data.atcoords.flatten(), f)
 
+    # write frozen atoms (-2 is frozen in MicOpt, -1 is the default)
+    if data.atfrozen is not None:
+        _dump_integer_arrays("MicOpt", np.where(data.atfrozen, -2, -1), f)
+
     # write atomic weights
     if data.atmasses is not None:
         masses = data.atmasses / amu
